@@ -74,12 +74,14 @@ def translate_key_recipes(repo):
         slots = {}
         for idx, expr in re.findall(r"unique_key\[([^\]]+)\]\s*=\s*([^;]+);", body):
             idx, expr = re.sub(r"\s+", "", idx), re.sub(r"\s+", "", expr)
-            if expr not in KEYSRC:
-                raise Untranslatable("%s: unique_key[%s] = %s is outside the known key sources" % (name, idx, expr))
             pos = {"0": 0, "1": 1, "2": 2, "3+i": 3}.get(idx)
             if pos is None or pos in slots:
                 raise Untranslatable("%s: unexpected key index %r" % (name, idx))
-            slots[pos] = KEYSRC[expr]
+            # WHICH expression goes into the slot: anything outside the vocabulary is recorded as KOther (quoted in
+            # a comment), so that the model's key words — and the proofs about them — change with the source
+            slots[pos] = KEYSRC[expr] if expr in KEYSRC else "KOther (* %s *)" % re.sub(r"[^\w\[\]+<>|!&,. -]", " ", expr)
+        if len(re.findall(r"unique_key\s*\[", body)) - len(re.findall(r"\*\s*unique_key\s*\[\d+\]\s*;", body)) != len(slots):
+            raise Untranslatable("%s: a use of unique_key[...] that is not a plain assignment" % name)
         length = {"1": 1, "2": 2, "3+funcbuilder.nargs": 4}.get(n)
         if length is None:
             raise Untranslatable("%s: unexpected key length %r" % (name, n))
@@ -88,7 +90,123 @@ def translate_key_recipes(repo):
         defs.append("Definition %s : list ksrc := [ %s ]." % (
             name, "; ".join(slots[i] for i in range(min(length, len(slots))))))
     head = open(GEN + ".snapshot").read().split("Definition primitive_key")[0]
-    return head + "\n".join(defs) + "\n"
+    return head + "\n".join(defs + translate_protocol(text)) + "\n"
+
+
+def _flat(stmts, conds=()):
+    """statements in source order with the stack of enclosing if-conditions: (tokens, conds)"""
+    out = []
+    for st in stmts:
+        if st[0] == "expr":
+            out.append((st[1], conds))
+        elif st[0] == "return":
+            out.append((["return"] + st[1], conds))
+        elif st[0] == "if":
+            out += _flat(st[2], conds + ("".join(st[1]),))
+            if len(st) == 4:
+                out += _flat(st[3], conds + ("!(" + "".join(st[1]) + ")",))
+        else:
+            raise Untranslatable("loop in a cache-protocol function")
+    return out
+
+
+def translate_protocol(text):
+    """remove_dead_unique_reference, ctypedescr_dealloc, get_or_insert_unique_type, ctypedescr_clear -> the four
+    gen_* facts; any statement about the cache / the weak references / the child fields that is not of the
+    expected form makes the translation fail (fallback, reported as a broken obligation)"""
+    from props import c29
+
+    def body(header):
+        b = c29._function_body(text, header)
+        if "#" in b:
+            raise Untranslatable("%s: preprocessor line inside" % header)
+        return _flat(c29._Stmts(c29._tokens(b)).all())
+
+    def j(toks):
+        return "".join(toks)
+
+    # --- remove_dead_unique_reference: is PyDict_DelItem under the dead-weakref test?
+    flat = body("static void remove_dead_unique_reference(PyObject *unique_key)\n{")
+    dels = [(i, t, c) for i, (t, c) in enumerate(flat) if "PyDict_DelItem" in t or "PyDict_Clear" in t or "PyDict_Pop" in t]
+    if len(dels) != 1 or j(dels[0][1]) != "err=PyDict_DelItem(unique_cache,unique_key)":
+        raise Untranslatable("remove_dead_unique_reference: expected exactly one err = PyDict_DelItem(unique_cache, unique_key)")
+    i, _, conds = dels[0]
+    gets = [k for k, (t, c) in enumerate(flat) if j(t) == "wr=PyDict_GetItemWithError(unique_cache,unique_key)" and not c]
+    if len(gets) != 1 or gets[0] > i:
+        raise Untranslatable("remove_dead_unique_reference: the lookup of the key is not as expected")
+    if conds == ("wr!=NULL", "err==0"):
+        test = [k for k, (t, c) in enumerate(flat) if j(t) == "err=PyWeakref_GetRef(wr,&tmp)" and c == ("wr!=NULL",)]
+        if len(test) != 1 or not gets[0] < test[0] < i or any(
+                t[:2] in (["err", "="], ["wr", "="], ["tmp", "="]) for t, c in flat[test[0] + 1:i]):
+            raise Untranslatable("remove_dead_unique_reference: err == 0 is not the result of PyWeakref_GetRef(wr, &tmp)")
+        only_if_dead = True
+    elif conds == ("wr!=NULL",):
+        only_if_dead = False
+    else:
+        raise Untranslatable("remove_dead_unique_reference: PyDict_DelItem under unexpected conditions %r" % (conds,))
+
+    # --- ctypedescr_dealloc: order of the relevant statements
+    flat = body("ctypedescr_dealloc(CTypeDescrObject *ct)\n{")
+    STEP = {"PyObject_ClearWeakRefs((PyObject*)ct)": ("DClearWeakrefs", ()),
+            "remove_dead_unique_reference(ct->ct_unique_key)": ("DRemoveKey", ("ct->ct_unique_key!=NULL",)),
+            "Py_XDECREF(ct->ct_itemdescr)": ("DDecrefItem", ()), "Py_XDECREF(ct->ct_stuff)": ("DDecrefStuff", ()),
+            "Py_TYPE(ct)->tp_free((PyObject*)ct)": ("DFree", ())}
+    IGNORE = {"PyObject_GC_UnTrack(ct)": (), "Py_DECREF(ct->ct_unique_key)": ("ct->ct_unique_key!=NULL",),
+              "PyObject_Free(ct->ct_extra)": ("ct->ct_flags&CT_FUNCTIONPTR",)}
+    order = []
+    for t, c in flat:
+        k = j(t)
+        if k in STEP and STEP[k][1] == c:
+            order.append(STEP[k][0])
+        elif not (k in IGNORE and IGNORE[k] == c):
+            raise Untranslatable("ctypedescr_dealloc: statement outside the subset: %s under %r" % (" ".join(t), c))
+    if len(set(order)) != len(order):
+        raise Untranslatable("ctypedescr_dealloc: a step occurs twice")
+
+    # --- get_or_insert_unique_type: live hit returned before the insertion; ct_unique_key set only after it
+    flat = body("static PyObject *get_or_insert_unique_type(CTypeDescrObject *x,\n                                           PyObject *key)\n{")
+    js = [(j(t), c) for t, c in flat]
+
+    def where(stmt, conds=None):
+        ks = [k for k, (t, c) in enumerate(js) if t == stmt and (conds is None or c == conds)]
+        if len(ks) != 1:
+            raise Untranslatable("get_or_insert_unique_type: expected exactly one %r" % stmt)
+        return ks[0]
+    hit = where("returnobj", ("wr!=NULL", "obj!=NULL"))
+    ins = where("returnNULL", ("PyDict_SetItem(unique_cache,key,wr)<0",))
+    setk = where("x->ct_unique_key=key", ())
+    lookup = [k for k, (t, c) in enumerate(js) if t == "returnNULL" and c == ("PyDict_GetItemRef(unique_cache,key,&wr)<0",)]
+    getref = [k for k, (t, c) in enumerate(js) if c == ("wr!=NULL", "PyWeakref_GetRef(wr,&obj)<0")]
+    neww = where("wr=PyWeakref_NewRef((PyObject*)x,NULL)", ())
+    if len(lookup) != 1 or not getref or not lookup[0] < getref[0] < hit:
+        raise Untranslatable("get_or_insert_unique_type: lookup / PyWeakref_GetRef(wr, &obj) / return obj not in this order")
+    uses = {x for t, c in js for x in (t,) + tuple(c) if "unique_cache" in x}
+    if uses != {"PyDict_GetItemRef(unique_cache,key,&wr)<0", "PyDict_SetItem(unique_cache,key,wr)<0"} \
+            or sum(1 for t, c in js if "ct_unique_key" in t and t != "assert(x->ct_unique_key==NULL)") != 1:
+        raise Untranslatable("get_or_insert_unique_type: more uses of unique_cache / ct_unique_key than modelled")
+    if any(t.startswith(("obj=", "wr=")) for t, c in js[lookup[0] + 1:hit]):
+        raise Untranslatable("get_or_insert_unique_type: wr / obj reassigned before the live test")
+    insert_after = hit < neww < ins < setk
+
+    # --- ctypedescr_clear
+    flat = body("ctypedescr_clear(CTypeDescrObject *ct)\n{")
+    FIELD = {"Py_CLEAR(ct->ct_itemdescr)": "FItem", "Py_CLEAR(ct->ct_stuff)": "FStuff",
+             "Py_CLEAR(ct->ct_unique_key)": "FUniqueKey"}
+    fields = []
+    for t, c in flat:
+        k = j(t)
+        if k == "return0" and not c:
+            continue
+        if c:
+            raise Untranslatable("ctypedescr_clear: conditional statement")
+        m = re.fullmatch(r"Py_CLEAR\(ct->\w+\)", k)
+        if not m:
+            raise Untranslatable("ctypedescr_clear: statement outside the subset: %s" % " ".join(t))
+        fields.append(FIELD.get(k, "FOther"))
+    return ["Definition gen_remove_only_if_dead : bool := %s." % ("true" if only_if_dead else "false"),
+            "Definition gen_dealloc_order : list dstep := [ %s ]." % "; ".join(order),
+            "Definition gen_insert_after_live_check : bool := %s." % ("true" if insert_after else "false"),
+            "Definition gen_clear_fields : list cfield := [ %s ]." % "; ".join(fields)]
 
 
 def regen(ctx):
@@ -570,8 +688,8 @@ def shrink(ctx, case, kind):
         if out is None:
             return False
         if kind == "predicate":
-            if c["level"] == "raw":
-                return bool(predicate_raw(c, out))
+            if c["level"] == "raw":       # (an operation that merely raises is a harness matter, not the predicate)
+                return any("raised" not in x[0] for x in predicate_raw(c, out))
             return any(o[0] in ("check", "wrong") and o[1] for o in out["outs"])
         bad, _, err = model_check([(c, out)])
         return bool(bad)
@@ -677,19 +795,32 @@ def run(ctx):
                        "handles singly and in families (cascading frees, real address reuse), function types built from "
                        "array-typed arguments (three lengths / open arrays next to the pointer form; arrays dropped, arrays "
                        "of another item type with an equally long name created on the freed addresses, function types "
-                       "built from those; the returned ctype's result/args/ellipsis compared with the request), acyclic "
+                       "built from those; the returned ctype's result/args/ellipsis compared with the request), zero-size "
+                       "bursts (item types of size 0: T[0] of a primitive / of an array / of an empty struct, struct or "
+                       "union completed with total size 0, arrays of those, T[n][0]; 3-5 different lengths alive together, "
+                       "rebuilt in another order, dropped, gc.collect(), rebuilt in the opposite order; T[n][0] next to "
+                       "T[0][n]; one such burst in every history of 100+ operations), acyclic "
                        "complete_struct_or_union, gc.collect(); ffi level: 3-4 cffi.FFI objects incl. out-of-line "
-                       "module FFIs, typeof over 34 type strings, derived pointer/array/item types, dropping handles "
+                       "module FFIs and bare _cffi_backend.FFI objects, typeof over 34 + 29 type strings (29: arrays of "
+                       "zero-size items with several lengths, T[0][n]), derived pointer / [0] [3] [5] [7] array / item "
+                       "types, every typeof result compared with the requested spelling, dropping handles "
                        "and FFI objects, gc.collect(), partition checkpoints every 12 operations. Non-trivial = a "
                        "construction that returned an existing live object, or rebuilt a description freed earlier, "
                        "or an ffi checkpoint with more than 3 description classes. evaluations = operations.")
     ctx.assumptions += [
-        "coq/C27/Gen.v: for each constructor (primitive, pointer, array, void, function) the sources of the "
-        "unique_key slots and the key length handed to get_unique_type, plus textual presence of the statements that "
-        "store the children in the new type, regenerated on every run (fail closed to the snapshot); the model's key "
-        "of a new type is defined from them (key_kids) and Proofs.v is re-proved on the current text",
-        "hand-written model C27/Model.v of unique_cache / get_or_insert_unique_type / ctypedescr_dealloc / "
-        "remove_dead_unique_reference / tp_clear; tied by this run's differential histories (raw level)",
+        "coq/C27/Gen.v: for each constructor (primitive, pointer, array, void, function) WHICH expression every "
+        "unique_key slot receives (unknown expressions -> KOther) and the key length handed to get_unique_type, plus "
+        "textual presence of the statements that store the children in the new type; and the cache protocol "
+        "(gen_remove_only_if_dead, gen_dealloc_order, gen_insert_after_live_check, gen_clear_fields) read from "
+        "remove_dead_unique_reference, ctypedescr_dealloc, get_or_insert_unique_type, ctypedescr_clear; regenerated "
+        "on every run; when the source is outside the translator's subset the snapshot is used AND a broken "
+        "obligation is reported; the model's key words are built from the recipes (key_of) and Free/New/GcClear "
+        "consult the protocol facts, so Proofs.v is re-proved on the current text",
+        "static objects whose addresses are keys (primitive table entries, the literal \"void\") are pairwise "
+        "distinct and disjoint from heap objects (modelled as negative words)",
+        "hand-written model C27/Model.v of the transition structure of unique_cache / get_or_insert_unique_type / "
+        "ctypedescr_dealloc / remove_dead_unique_reference / tp_clear; tied by this run's differential histories "
+        "(raw level)",
         "model fact tied by the raw-level correspondence: the key of a type is built from the objects the type itself "
         "references and keeps alive — for a function type the result and the DECAYED arguments (array -> its pointer "
         "type, new_function_type); exercised with array-typed arguments of several lengths, array types freed and their "
@@ -703,24 +834,44 @@ def run(ctx):
         "the ffi-level histories (predicate only), not modelled",
         "single-threaded (GIL build); the free-threaded build's unique_cache_lock is out of scope"]
     from props import c29
+    st = ctx.extra.get("translator", {}).get("C27/Gen.v", "")
+    if st.startswith("fallback"):
+        # fail closed: the source no longer has the shape the translator reads, so the theorems (proved on the
+        # committed snapshot) say nothing about this tree
+        ctx.obligation_broken("C27/Gen.v cannot be regenerated from the current source", st)
     c29.settle_obligations(ctx, "C27", GEN, translate_key_recipes)
     evaluate(ctx, generate(ctx))
 
 
 MANIFEST = dict(
     technique="Coq proof (cache invariant by induction over all histories with an adversarial address-reusing "
-              "allocator and deferred GC deallocation) + differential histories on the raw backend + partition "
-              "checks over several FFI objects",
-    text="Proof: in the model of unique_cache with address-based keys, weak references, get_or_insert_unique_type, "
-         "ctypedescr_dealloc -> remove_dead_unique_reference (conditional delete) and tp_clear, for every history and "
-         "every allocator choice: two live non-aggregate types with the same description are the same object "
-         "(C27_canonical); a construction returns an object with exactly the requested description — the live one "
-         "if any, else a new one (C27_new_returns: no false sharing through stale keys or reused addresses); live "
-         "cache entries match their keys; a type rebuilt after a free is a new, again unique, object. The model is the backend's one global cache; "
-         "that the front ends (several FFI objects, type strings, out-of-line modules, model.global_cache) "
-         "preserve canonicity is decided by the ffi-level correspondence only. Tied to the "
-         "code by raw-backend histories compared with the model and by FFI-level partition checks.",
-    note="Trusted: Coq kernel; hand model C27/Model.v (differential tie on the raw level); CPython weakref/refcount "
-         "semantics as stated; the harness's structural description of ctypes. Theorems closed under the global "
-         "context. Free-threaded build out of scope.",
+              "allocator and deferred GC deallocation; key = the word list built from the regenerated unique_key "
+              "recipes; cache protocol regenerated from the four C functions) + differential histories on the raw "
+              "backend + partition / request-vs-result checks over several FFI objects",
+    text="Proof (coq/C27/Props.v): in the model of unique_cache with weak references, get_or_insert_unique_type, "
+         "ctypedescr_dealloc -> remove_dead_unique_reference and tp_clear, for every history and every allocator "
+         "choice: two live non-aggregate types with the same description are the same object (C27_canonical; over whole "
+         "description trees with aggregates as leaves: C27_canonical_deep); a construction returns an object with "
+         "exactly the requested description — the live one if any, else a new one (C27_new_returns: no false sharing "
+         "through stale keys, reused addresses or colliding key words); live cache entries match their keys "
+         "(C27_entries_sound); a type rebuilt after a free is a new, again unique, object (C27_rebuild_after_free); "
+         "C27_heap_wellformed, C27_decayed_args_alive. The cache key is the raw WORD list (no kind tag) built from the "
+         "recipes of Gen.v: equal words imply equal descriptions (C27_key_words_determine_description for any heap "
+         "with distinct addresses, C27_key_words_injective for reachable states; static objects are modelled as words "
+         "< 0, the length word is length mod 2^64). Regenerated on every run from src/c/_cffi_backend.c, fail closed "
+         "(a fallback is reported as a broken obligation): which expression each unique_key[i] slot receives and the key "
+         "length, per constructor (C27_gen_key_recipes; an unknown expression becomes KOther and breaks Proofs.v), and the "
+         "cache protocol (C27_gen_cache_protocol: delete only under the dead-weakref test, dealloc order clear-weakrefs / "
+         "remove-key / release children / free, live hit returned before the insertion and ct_unique_key set only on "
+         "insertion, tp_clear resets the two child fields only) which Free / New / GcClear of the model consult. "
+         "Correspondence only: the model's transition structure against the raw backend (histories incl. arrays of "
+         "zero-size item types — T[0], structs/unions completed with size 0, arrays of those, T[n][0] next to T[0][n] — "
+         "with several lengths alive together, drops, gc.collect(), rebuilds inside weakref callbacks); that the front "
+         "ends (cffi.FFI, out-of-line module FFIs, bare _cffi_backend.FFI, model.global_cache, realize_c_type) preserve "
+         "canonicity and return the requested type: ffi-level partition checkpoints + typeof(S) must be the type S.",
+    note="Trusted: Coq kernel; hand model C27/Model.v of the transition structure (differential tie on the raw level; the "
+         "key recipes and the four protocol facts inside it are regenerated); static storage disjoint from the heap; "
+         "CPython weakref/refcount semantics as stated; the harness's structural description of ctypes. Not in the "
+         "model: the census that get_unique_type's five callers are the only producers of non-aggregate ctypes; "
+         "threads / LOCK_UNIQUE_CACHE (free-threaded build out of scope). Theorems closed under the global context.",
     design_ref="DESIGN.md §4 C27")
